@@ -21,6 +21,12 @@ CONSTANTS Tier
 Scalars == {"f32", "f64"}
 MachEpsExp(sc) == IF sc = "f32" THEN 23 ELSE 52
 Exps == {0, 10, 20, 30, 45, 60}
+\* ... and one exponent per scalar type for which the weight 2^-k itself is a SUBNORMAL number
+\* (2^-1030 in f64, 2^-135 in f32): a finite, non-zero weight like any other.  The row of the model
+\* (and of the observations) it belongs to is larger by 2^(k-10), so that the weighted row is an
+\* ordinary number again: sigma_j = j * 2^-10 (KEff).
+ExpsFor(s) == Exps \cup (IF s = "f64" THEN {1030} ELSE {135})
+KEff(k) == IF k > 60 THEN 10 ELSE k
 \* user thresholds +-2^-u; u = 140 is a subnormal number in f32, u = 1050 a subnormal number in f64 and
 \* underflows to zero in f32; kind "zero" is a threshold of exactly +-0: |eps| = 0, nothing positive is
 \* at or below it (what a caller whose basis functions are tiny has to ask for)
@@ -55,22 +61,23 @@ YChoices(n) == [1..n -> [1..1 -> YVals]]
 Init == /\ sc \in Scalars
         /\ M \in 1..(IF Tier = "thorough" THEN 3 ELSE 2)
         /\ N \in {M, M + 1}
-        /\ ks \in [1..M -> Exps]
+        /\ ks \in [1..M -> ExpsFor(sc)]
         /\ thr \in Thresholds
         /\ Y \in YChoices(N)
-        /\ \A j \in 1..M : ~Borderline(j, ks[j], ThExp(sc, thr))
+        /\ \A j \in 1..M : ~Borderline(j, KEff(ks[j]), ThExp(sc, thr))
+
 Next == UNCHANGED vars
 Spec == Init /\ [][Next]_vars
 
-Trunc == [j \in 1..M |-> Truncated(j, ks[j], ThExp(sc, thr))]
+Trunc == [j \in 1..M |-> Truncated(j, KEff(ks[j]), ThExp(sc, thr))]
 \* coefficient j for right hand side s as numerator / denominator
 CoeffNum == [j \in 1..M |-> [s \in 1..Len(Y[1]) |-> IF Trunc[j] THEN 0 ELSE Y[j][s]]]
 CoeffDen == [j \in 1..M |-> j]
 
 \* sanity: with all exponents 0 nothing is truncated by any of the thresholds; a larger threshold
 \* (smaller exponent) truncates at least as much
-NothingTruncatedAtUnitWeights == (\A j \in 1..M : ks[j] = 0) => \A j \in 1..M : ~Trunc[j]
-Monotone == \A j \in 1..M : Truncated(j, ks[j], 40) => Truncated(j, ks[j], 15)
+NothingTruncatedAtUnitWeights == (\A j \in 1..M : KEff(ks[j]) = 0) => \A j \in 1..M : ~Trunc[j]
+Monotone == \A j \in 1..M : Truncated(j, KEff(ks[j]), 40) => Truncated(j, KEff(ks[j]), 15)
 
 Export == PrintT(<<"VPTH", ToJson([scalar |-> sc, M |-> M, N |-> N, ks |-> ks,
             thr |-> [kind |-> thr.kind, u |-> thr.u, neg |-> thr.neg], Y |-> Y,
